@@ -48,6 +48,9 @@ func main() {
 	case o.Extra == "o": // only the round-6 stream (debugging aid)
 		runOptStream(o, NewRng(o.Seed), o.N)
 		return
+	case o.Extra == "e": // only stream E (debugging aid)
+		runEntryStream(o, NewRng(o.Seed), o.N)
+		return
 	case o.Extra == "ci": // only the round-5 streams (debugging aid)
 		runConvStream(o, o.N)
 		runIterStream(o, o.N)
